@@ -199,6 +199,14 @@ class Check(FormulaCheck):
             g = self.ev('MATCH(%s,%s,0)' % (hx.lit(x), a_txt))
             exp = next((i + 1 for i, v in enumerate(perm) if v == x), 'ERR:#N/A')
             self.expect('C18/MATCH-exact', g == exp, array=perm, x=x, got=g, expected=exp, injected=how)
+            # the same number given in the other representation (2 / 2.0, as host value): equal is equal
+            if isinstance(x, (int, float)) and x == int(x):
+                other = float(x) if isinstance(x, int) else int(x)
+                g = self.ev('MATCH(v_x,%s,0)' % a_txt, v_x=other)
+                self.expect('C18/MATCH-exact:int-float-representation', g == exp, array=perm, x=other, x_type=type(other).__name__, got=g, expected=exp, injected=how)
+                if exp != 'ERR:#N/A':
+                    g = self.ev('INDEX(%s,MATCH(v_x,%s,0))' % (a_txt, a_txt), v_x=other)
+                    self.expect('C18/INDEX(MATCH)=x', g == x, array=perm, x=other, got=g)
             rec.nt(('m0', tuple(perm), x, how))
             if exp != 'ERR:#N/A':
                 g = self.ev('INDEX(%s,MATCH(%s,%s,0))' % (a_txt, hx.lit(x), a_txt))
